@@ -247,7 +247,7 @@ def assign_atom(a, t, st):
     style = a.get('style', 'plain')
     if style == 'plain':
         if kind == 'ptr':
-            txt, b, off = PTR_ATOMS[t[1]][n % 8]
+            txt, b, off = PTR_ATOMS[t[1]][(n + st.salt) % 8]
             a['text'], a['val'] = txt, ('p', b, off)
         elif kind == 'flt' and n % 2 == 0:
             a['text'], a['val'] = "%d.5" % base, Fraction(2 * base + 1, 2)
@@ -412,6 +412,7 @@ def run_list(o, t, items, st):
 
 def evaluate(t, ini):
     st = State()
+    st.salt = sum(map(ord, repr(t))) % 8      # deterministic variation of the address constants used
     root = mk(t)
     if ini['k'] == 'l' and t[0] in ('arr', 'st', 'un') and not (
             t[0] == 'arr' and len(ini['items']) == 1 and ini['items'][0][0] is None and ini['items'][0][1]['k'] == 's'
